@@ -129,8 +129,14 @@ def run(repo: Repo, chk: Check, thorough: bool = False) -> None:
     check_escapes(repo, chk, cg, esc, PHASE_ENTRIES, 'R01.1')
     chk.require('R01.1', 120)
     chk.stats['separator_strip_idioms'] = sorted(esc.t9_instances)
-    if len(esc.t9_instances) < 2:
-        chk.error(f'T9: {len(esc.t9_instances)} separator-strip idiom(s) found (2 confirmed by reading: assembleList.commasep, ClassPage.baseName)')
+    # vacuity guard of a hazard census whose honest count may become zero (the idiom replaced by "separator before every element but the first"): every
+    # `del <list>[-1]` statement of the page writers must have been examined as a T9 instance - the count of the recogniser is compared with an independent,
+    # purely syntactic count instead of with a frozen number
+    n_del = len({(f_.mod.name, n_.lineno) for f_ in repo.funcs.values() if f_.mod.name.startswith('pydoctor.templatewriter.pages') and '.test' not in f_.mod.name
+                 for n_ in f_.walk() if isinstance(n_, ast.Delete) and any(isinstance(t_, ast.Subscript) and norm(t_.slice) == '-1' for t_ in n_.targets)})
+    chk.stats['separator_strip_del_statements'] = n_del
+    if len(esc.t9_instances) < n_del:
+        chk.error(f'T9: {len(esc.t9_instances)} separator-strip idiom(s) examined but {n_del} `del <list>[-1]` statement(s) exist in templatewriter.pages: the recogniser lost sight of the idiom')
     lit = [s for s in esc.sources if s.kind == 'T1' and 'literal_eval' in s.label]
     prs = [s for s in esc.sources if s.kind == 'T1' and ('ast.parse' in s.label or 'compile' in s.label)]
     chk.stats['T1_literal_eval_sites'] = len(lit)
